@@ -237,7 +237,13 @@ pub fn run_cases(args: &Args, mut res: SubResult, total: usize, timeout: Duratio
             match child.try_wait() {
                 Ok(Some(s)) => break s,
                 Ok(None) => {
-                    if t0.elapsed() > timeout {
+                    // the time limit is a budget of CPU time per worker (a starved pool on a loaded machine
+                    // is not a stuck pool); wall-clock time ends the wait only after six times the budget
+                    let over = t0.elapsed() > timeout && {
+                        let cpu: Duration = pids.iter().filter_map(|p| proc_cpu(*p)).sum();
+                        cpu > timeout * (pids.len() as u32) / 2 || t0.elapsed() > timeout * 6
+                    };
+                    if over {
                         let _ = child.kill();
                         for p in &pids {
                             unsafe {
